@@ -504,7 +504,7 @@ def run(ctx):
                        "MAIN and LAUNCHER are generated in the same intent-filter or not both on one component",
                        "numbers compared by value; codename SDK versions: only the attribute string is compared",
                        "trusted base: vf.model.axmlw (self-checked), python zipfile"]
-    n = 1600 if ctx.quick else 96000
+    n = 1600 if ctx.quick else 320000
     per = n // 16
     ctx.run_shards(MOD, "shard", [[k * per, (k + 1) * per] for k in range(16)], timeout=1500)
     ctx.require_counter("APK", 500)
